@@ -170,6 +170,22 @@ def templates():
     T.append([LOG, ("set", "cs", ("mut", arr(cell(INT)), ("array", []))),
               ("for", "k", ("post", "iter", ("array", [I(1), I(2), I(3)])), ("block", [("assign", "add", V("cs"), ("array", [("mut", INT, V("k"))]))])),
               ("assign", "set", ("at", D(V("cs")), I(0)), I(100)), D(V("cs"))])
+    # cells created by the INFERRED form `mut e`: the cell's content type is the static type of `e` (possibly a
+    # union), also when `e` folds to a constant of one member - a later assignment of another member is
+    # well-typed and the cell must still hold a member of its type (the harness walks every reachable cell)
+    F_ = ("f", 0.5)
+    inferred = [
+        [("set", "c", ("mut", None, ("at", ("array", [I(0), F_]), I(0)))), ("assign", "set", V("c"), ("f", 2.5)), ("tuple", [V("c"), D(V("c"))])],
+        [("set", "init", ("array", [I(0), ("s", "a")])), ("set", "c", ("mut", None, ("at", V("init"), I(0)))), ("assign", "set", V("c"), ("s", "b")),
+         ("tuple", [V("c"), D(V("c"))])],
+        [("set", "c", ("mut", None, ("if", ("true",), ("block", [I(1)]), ("block", [("s", "s")])))), ("assign", "set", V("c"), ("s", "t")), ("tuple", [V("c"), D(V("c"))])],
+        [("fndecl", "mk", [("v", multi(INT, FLOAT))], fn((), ANY),
+          [("return", ("fn", [], ANY, [("set", "c", ("mut", None, V("v"))), ("assign", "set", V("c"), ("f", 2.5)), ("return", ("tuple", [V("c"), D(V("c"))]))]))]),
+         ("call", ("call", V("mk"), [I(1)]), [])],
+        [("set", "t", ("tuple", [I(1), ("s", "x")])), ("set", "c", ("mut", None, ("array", [("tacc", V("t"), 0)]))),
+         ("assign", "add", V("c"), ("array", [I(2)])), ("tuple", [V("c"), D(V("c"))])],
+    ]
+    T += inferred
     # failing compound operators leave the cell unchanged (observed by continuing in the REPL-like sequence is not
     # possible after an error, so observe through a second program that does the same without the failing step)
     for op, bad in (("div", 0), ("mod", 0), ("shl", 64), ("shr", -1), ("pow", -2)):
